@@ -133,6 +133,7 @@ func runCheck(o checkOpts) checkResult {
 	var queries []*Query
 	var fxs []*FuncCtx
 	var genErrs []string
+	var stale []*OblResult
 	seen := map[string]bool{}
 	engines := map[string]*Engine{"": eng}
 	for _, t := range targets {
@@ -153,6 +154,13 @@ func runCheck(o checkOpts) checkResult {
 		}
 		fx, err := te.verifyFunc(t.pkg, t.key)
 		if err != nil {
+			if sc, ok := err.(*staleContractErr); ok {
+				name := strings.TrimPrefix(t.pkg[len(modPath):]+"."+t.key+"/contract[fits]", "/")
+				stale = append(stale, &OblResult{Name: name, Kind: "contract", Status: "failed", Queries: 1, Solvers: []string{"govc"},
+					Clause: "the contract of " + t.key + " applies to its body: " + sc.msg,
+					failing: []*Query{{Obl: name, Kind: "contract", Status: "contract-does-not-fit", Solver: "govc", Clause: sc.msg, Output: sc.Error()}}})
+				continue
+			}
 			genErrs = append(genErrs, err.Error())
 			continue
 		}
@@ -250,6 +258,7 @@ func runCheck(o checkOpts) checkResult {
 	for _, n := range order {
 		obls = append(obls, byName[n])
 	}
+	obls = append(obls, stale...)
 	var lockTrusted []string
 	nLockTypes := 0
 	if o.property != "" {
